@@ -1,0 +1,18 @@
+//go:build verif
+
+package health
+
+import "time"
+
+// VerifSetTiming replaces the probe interval and per-probe timeout (NewMonitor only takes whole
+// seconds).  Call before Start.
+func (monitor *Monitor) VerifSetTiming(interval, timeout time.Duration) {
+	monitor.interval = interval
+	monitor.timeout = timeout
+}
+
+// VerifSnapshot returns the failure counter and the current verdict.  Read without
+// synchronisation: the harness uses it only to notice that a probe has been processed.
+func (monitor *Monitor) VerifSnapshot() (failedTimes uint64, statusOK bool) {
+	return monitor.failedTimes, monitor.statusOK
+}
